@@ -233,10 +233,30 @@ pub fn run(tier: &str) -> i32 {
             json!({"network": net.to_string(), "threshold": theta, "max_blocks": n, "difficulties": diffs}),
         );
     }
+    // the fee percentiles are answered with respect to the same tip: fee-carrying
+    // histories through the heartbeat, with a query after every step (C15's model)
+    for (theta, lazy, n) in if quick { vec![(3u32, true, 4usize), (3, false, 4)] } else { vec![(3, true, 5), (3, false, 5), (6, true, 5)] } {
+        let m = crate::props::c15::C15Model {
+            theta,
+            lazy,
+            max_blocks: n,
+            bodies: vec![BODY_CB, BODY_FEE_SEGWIT, BODY_FEE_PAIR],
+            max_upgrades: 0,
+            max_queries: if lazy { n + 1 } else { 0 },
+        };
+        let e = explore(&m, &Limits::new(2, if quick { 300 } else { 3000 }));
+        rep.absorb(
+            &format!("FEES-follow-tip theta={} lazy={} n={}", theta, lazy, n),
+            e,
+            json!({"threshold": theta, "lazy": lazy, "max_blocks": n, "oracle": "fee percentiles = reference percentiles of the best chain at the last observation point"}),
+        );
+    }
+    rep.floor("nonempty_answers_checked", 500);
+    rep.floor("states_where_forks_carry_different_fees", 50);
     rep.rule = "all histories of <= n block deliveries (any live block as parent, difficulty from D, coinbase-only bodies paying 2^k satoshi so that a balance identifies the chain) interleaved with unsliced ingestion opportunities; a state is distinct by the fingerprint of the serialised canister state (statistics masked); outcome = best tip".into();
     rep.bounds = json!({"tier": tier, "profile": "TREE"});
     rep.assume("mainnet/testnet blocks enter through unstable_blocks::push (no proof of work natively)");
-    rep.assume("fee percentiles 'which chain' is decided by C15; utxos_length is not part of this statement");
+    rep.assume("utxos_length is not part of this statement; the values of the fee percentiles are C15's subject, here they serve to tell which chain is served");
     rep.floor("states_best_shorter_than_longest", 10);
     rep.floor("states_exact_tie_decided_by_arrival", 10);
     rep.floor("reorg_transitions", 10);
